@@ -164,11 +164,17 @@ package agent
 //@   requires unlocked: !held(a.PortFwdsMtx)
 //@   requires nonnil: a != nil
 //@   modifies *
+// C15: closing a forward removes exactly the first entry with that id, whether or not it was ever dialled; the others keep their order.
 //@ func (a *Agent) PortFwdClose(SocketID int)
 //@   requires entries: forall(i, 0, len(a.PortFwds), a.PortFwds[i] != nil)
 //@   requires unlocked: !held(a.PortFwdsMtx)
 //@   requires nonnil: a != nil
-//@   modifies *
+//@   modifies a.PortFwds, elems(a.PortFwds), allof(PortFwd.Conn)
+//@   ensures-local absent:  forall(k, 0, old(len(a.PortFwds)), old(a.PortFwds)[k].SocktID != SocketID) ==> a.PortFwds == old(a.PortFwds)
+//@   ensures-local removed: forall(j, 0, old(len(a.PortFwds)), (old(a.PortFwds)[j].SocktID == SocketID && forall(k, 0, j, old(a.PortFwds)[k].SocktID != SocketID)) ==> a.PortFwds == cat(old(a.PortFwds)[:j], old(a.PortFwds)[j+1:]))
+//@   loop "for i := range a.PortFwds"
+//@     invariant none: forall(k, 0, idx__, a.PortFwds[k].SocktID != SocketID)
+//@     invariant same: sameslice(a.PortFwds, old(a.PortFwds)) && a.PortFwds == old(a.PortFwds)
 //@ func (a *Agent) SocksClientAdd(SocketID int32, conn net.Conn, ATYP byte, IpDomain []byte, Port uint16) (r *SocksClient)
 //@   requires unlocked: !held(a.SocksCliMtx)
 //@   requires nonnil: a != nil
